@@ -159,6 +159,9 @@ impl<'a> Gen<'a> {
                 crate::httpc::check_documented(self.rep, st, code, true, "valid request");
             }
         }
+        if let Some(what) = self.sys.client_parse_failure.take() {
+            self.rep.fail("C16", "client_cannot_use_tower_reply", &format!("the client's request/response code could not use a reply the tower sent ({what}) to `{}`", op_name(&op)));
+        }
         self.world.apply_rpcs(&log, &send);
         self.rep.count(&format!("op:{}", op_name(&op)));
         for (m, _) in log.iter() {
